@@ -92,6 +92,12 @@ pub use trace::{
 mod channel;
 use channel::ProverChannel;
 
+/// Verification-only re-exports (cfg winterfell_verif).
+#[cfg(winterfell_verif)]
+pub mod verif_hooks {
+    pub use super::channel::ProverChannel;
+}
+
 mod errors;
 pub use errors::ProverError;
 
